@@ -27,7 +27,7 @@ MARK = re.compile(rb"'([tuhc])(\d{3})[^']*'")
 
 def gen_records(rng, name, n):
     size, so, ss, uo, us, fields, *_ = layouts.LAYOUTS[name]
-    pattern = rng.choice(("increasing", "increasing", "shuffled", "duplicated", "seconds_only", "all_equal"))
+    pattern = rng.choice(("increasing", "increasing", "shuffled", "duplicated", "seconds_only", "all_equal", "same_second_usec_shuffled"))
     base = rng.randint(1_500_000_000, 1_720_000_000)
     times = []
     t = base
@@ -40,6 +40,17 @@ def gen_records(rng, name, n):
             times.append(times[-1])
             continue
         times.append((t, usec))
+    if pattern == "same_second_usec_shuffled":
+        # several records inside the same (often the earliest) second, told apart by microseconds only, stored out of order
+        k = rng.randint(2, max(2, min(n, 6)))
+        grp = [(base, u) for u in rng.sample(range(0, 1000000, 1000), k)] if uo is not None else [(base, 0)] * k
+        times = grp + times[k:] if rng.random() < 0.7 else times[:max(0, n - k)] + [(times[-1][0] + 5, u) for (_, u) in grp]
+        times = times[:n] if len(times) >= n else times
+        head = times[:k]
+        rng.shuffle(head)
+        times[:k] = head
+        if rng.random() < 0.5:
+            rng.shuffle(times)
     if pattern == "shuffled":
         rng.shuffle(times)
     recs = []
